@@ -1214,7 +1214,7 @@ fn finish_policies(n: usize) -> Vec<Vec<bool>> {
 pub fn configs(prop: SProp, tier: Tier) -> Vec<SCfg> {
     let thorough = tier == Tier::Thorough;
     let mut out = Vec::new();
-    let sinks: &[(Flavour, usize)] = &[(Flavour::Always, 1), (Flavour::Coupled, 1)];
+    let sinks: &[(Flavour, usize)] = &[(Flavour::Always, 1), (Flavour::Coupled, 1), (Flavour::FlushFrees, 1)];
     match prop {
         SProp::C02 => {
             let alpha = S_CANCEL | S_FINISH | S_DRAIN | S_EOF | S_ADVANCE | S_DROPH | S_DUP;
@@ -1305,7 +1305,9 @@ pub fn configs(prop: SProp, tier: Tier) -> Vec<SCfg> {
                                 let mut r1 = ReqCfg::simple(1, f1);
                                 r1.deadline_ms = d1;
                                 out.push(base(vec![r0.clone(), r1.clone()], limit, 1, *fl, *cap, alpha));
-                                if limit == Some(1) || thorough {
+                                // (limit 2 with three requests is where re-introducing D-C06b,
+                                // one expiry per poll, shows within two deviations)
+                                if limit.is_some() || thorough {
                                     let mut r2 = ReqCfg::simple(2, true);
                                     r2.deadline_ms = 50;
                                     out.push(base(vec![r0, r1, r2], limit, 1, *fl, *cap, alpha));
